@@ -9,7 +9,7 @@ The master de-duplicates on the canonical key; BFS order makes the first counter
 from .core import Space
 
 
-def bfs(run, name, init_cases, depth, bounds="", key_of_init=None):
+def bfs(run, name, init_cases, depth, bounds="", key_of_init=None, dedup=True):
     seen = set()
     if key_of_init is not None:
         for c in init_cases:
@@ -23,7 +23,9 @@ def bfs(run, name, init_cases, depth, bounds="", key_of_init=None):
 
         def on_result(idx, payload):
             for key, succ in payload or ():
-                if key not in seen:
+                if not dedup:
+                    nxt.append(succ)
+                elif key not in seen:
                     seen.add(key)
                     nxt.append(succ)
 
